@@ -749,6 +749,7 @@ function* dgenB(g, op, v) { var pad = [1, 2, 3]; return f2(pad, call(g, op, v));
 function dGenBody(g, op, v) { return dgenB(g, op, v).next().value; }
 function dCatch(g, op, v) { try { throw 0; } catch (e) { return call(g, op, v); } }
 var ctxs = [call, d1, d2, d3, dForOf, dWith, dGenFinally, dGenBody, dCatch];
+function runh(h) { start(); for (var i = 0; i < h.length; i++) log("#" + step(h[i][0], h[i][1], h[i][2])); }
 var dfd = {};
 function mkd() { var d = {}; d.p = new Promise(function(a, b) { d.res = a; d.rej = b; }); return d; }
 function df(v) { if (typeof v === "number" && v >= 1 && v <= 3) return (dfd[v] || (dfd[v] = mkd())).p; return v; }
